@@ -912,6 +912,21 @@ func c20Configs() []*c20Cfg {
 			}
 		})
 	}
+	// six blocks: the smallest trees in which two vote-nodes at depth 2 pass through the same child of the
+	// round base while a third passes through its sibling (root->F->{FA,FB}, root->E->EA and its mirror): the
+	// vote graph then merges per-child weights of several vote-nodes; both hash orders of the children
+	for _, parent := range [][]int{{-1, 0, 1, 1, 0, 4}, {-1, 0, 1, 0, 3, 3}} {
+		for _, perm := range [][]int{{0, 1, 2, 3, 4, 5}, {5, 4, 3, 2, 1, 0}} {
+			c := &c20Cfg{
+				name:    fmt.Sprintf("tree%v/perm%v/%s/d%d/symm", parent, perm, v4.name, verifmc.Pick(4, 6)),
+				parent:  append([]int{}, parent...),
+				hash:    c20Hashes(perm),
+				ids:     c20Ids(len(v4.weights)),
+				weights: v4.weights, active: v4.active, symm: true, depth: verifmc.Pick(4, 6), baseNum: 1,
+			}
+			out = append(out, c.finish())
+		}
+	}
 	return out
 }
 
